@@ -20,7 +20,7 @@ type synGen struct {
 
 var synAccts = []string{"a", "b", "world", "users:001", "a-b_c", "Bank:fees:2024", "x"}
 var synAssets = []string{"USD", "EUR/2", "COIN", "BTC/8", "X", "USD/02", "JPY/010", "A/B/1", "/2", "USD/", "1INCH/18", "EUR/USD"}
-var synStrs = []string{"k", "hello world", "^", `q\"uote`, "", "a/b:c", "^^", `say \"hi\"`, `\"`, `tab\there`}
+var synStrs = []string{"k", "hello world", "rent, march", "x,y", ",", "^", `q\"uote`, "", "a/b:c", "^^", `say \"hi\"`, `\"`, `tab\there`}
 var synPortions = []string{"1/2", "1 / 3", "2/ 3", "1 /4", "50%", "12.5%", "100%", "0%", "3/4", "99.99%", "1/1", "10/20", "08/10", "007/010", "09%", "0.090%", "1/09"}
 var synTypes = []string{"account", "asset", "number", "monetary", "portion", "string"}
 var synVarNames = []string{"a", "my_var", "x2", "amount_1", "p", "s", "acc", "m"}
@@ -140,7 +140,7 @@ func (g *synGen) dest(d int) J {
 
 func (g *synGen) call(stmt bool) J {
 	r := g.r
-	name := pick(r, []string{"set_tx_meta", "set_account_meta", "meta", "balance", "overdraft", "foo", "a_b"})
+	name := pick(r, []string{"set_tx_meta", "set_account_meta", "meta", "balance", "overdraft", "foo", "a_b", "f", "b"})
 	n := r.Intn(6)
 	args := []any{}
 	for i := 0; i < n; i++ {
@@ -179,7 +179,7 @@ func genSynTree(r *rand.Rand, id int, maxStmts int) J {
 				c := g.call(false)
 				o = J{"k": "call", "name": c["name"], "args": c["args"]}
 			}
-			vars = append(vars, J{"type": pick(r, append(synTypes, "thing")), "name": name, "origin": o})
+			vars = append(vars, J{"type": pick(r, append(synTypes, "thing", "t")), "name": name, "origin": o})
 			g.names = append(g.names, name)
 		}
 		if r.Intn(4) == 0 {
@@ -220,8 +220,18 @@ func cmdSynTrees(args []string) {
 		{"id": 4, "emptyvars": false, "vars": []any{}, "stmts": []any{J{"k": "send", "all": true, "sent": eAsset("USD"),
 			"src": J{"k": "seq", "s": []any{J{"k": "ovd", "e": eAcct("world"), "b": eMon(eAsset("USD"), eNum(5))}, J{"k": "acct", "e": eAcct("a")}}}, "dst": J{"k": "acct", "e": eAcct("x")}},
 			J{"k": "send", "all": true, "sent": eAsset("USD"), "src": J{"k": "ovd", "e": eAcct("world"), "b": eMon(eAsset("USD"), eNum(5))}, "dst": J{"k": "acct", "e": eAcct("x")}}}},
+		// many capped sources in one statement (whatever is counted per statement while parsing must be given back)
+		{"id": 5, "emptyvars": false, "vars": []any{}, "stmts": []any{J{"k": "send", "all": false, "sent": eMon(eAsset("USD"), eNum(5)),
+			"src": J{"k": "seq", "s": func() []any {
+				xs := []any{}
+				for i := 0; i < 34; i++ {
+					xs = append(xs, J{"k": "cap", "c": eMon(eAsset("USD"), eNum(i)), "s": J{"k": "acct", "e": eAcct(fmt.Sprintf("v:%d", i))}})
+				}
+				xs = append(xs, J{"k": "seq", "s": []any{J{"k": "acct", "e": eAcct("last")}}})
+				return xs
+			}()}, "dst": J{"k": "ord", "cl": []any{J{"c": eMon(eAsset("USD"), eNum(1)), "to": J{"k": "acct", "e": eAcct("x")}}}, "rem": J{"k": "kept"}}}}},
 		// ratio parts around 2^63 and 2^64 (19 and 20 digits)
-		{"id": 5, "emptyvars": false, "vars": []any{}, "stmts": []any{
+		{"id": 6, "emptyvars": false, "vars": []any{}, "stmts": []any{
 			J{"k": "call", "name": "set_tx_meta", "args": jl(eStr("k"), J{"k": "portion", "lex": "1/9223372036854775808"})},
 			// the two ends of the platform integer, as number literals
 			J{"k": "call", "name": "set_tx_meta", "args": jl(eStr("k"), J{"k": "num", "lex": "-9223372036854775808"})},
@@ -231,6 +241,12 @@ func cmdSynTrees(args []string) {
 	}
 	for i := 0; i < n; i++ {
 		if i < len(fixed) && n > len(fixed) {
+			// (the long statement of tree 5 only where trees are printed under a few layouts, not where every edit of
+			// every token is enumerated)
+			if i == 5 && n < 50 {
+				lw.write(genSynTree(r, i, ms))
+				continue
+			}
 			lw.write(fixed[i])
 			continue
 		}
